@@ -142,10 +142,10 @@ func init() {
 			en("crash08", 16, 40, prm("oracle", "c14", "len", 3, "alphabet", "T2 WB F C DP")), en("c26sw", 16, 30, nil)},
 		[]Stage{bfs("lsm", 6, 600, prm("oracle", "c14", "keys", 3, "reopen", true)),
 			bfs("lsm", 4, 600, prm("oracle", "c29", "mode", "normal", "keyset", "drop", "keys", 6, "drops", true, "reopen", true, "snapshots", false, "l0_tables", 1, "value_threshold", 1024, "big_size", 400, "ops", "Sp1a Sq Dp1a F C0 C1 Yp1 Yp1,q Yp1a,qq Yp1a,p1 Yp V R"), seq("Bp1a Bp1b Bp2a Bp2b Bq Bqq F C0"))})
-	planTable["C36"] = lsmPlan("Managed-mode histories with caller-chosen, non-monotonic commit timestamps (CommitAt and per-entry SetEntryAt through a managed write batch), deletes at chosen timestamps, discard-timestamp moves, flushes and compactions; after every transition reads at every timestamp >= the discard timestamp equal the reference model and Item.Version equals the caller's timestamp. Write batches mixing explicit versions with the batch timestamp (every sequence of up to 3 / 5 operations), followed by a later commit: reads at every timestamp agree with the model on the live database and on a crash image re-opened in managed mode (the chosen timestamps survive WAL replay).",
+	planTable["C36"] = lsmPlan("Managed-mode histories with caller-chosen, non-monotonic commit timestamps (CommitAt and per-entry SetEntryAt through a managed write batch), deletes at chosen timestamps, discard-timestamp moves, flushes and compactions (once with a level-0 trigger of 3 tables, once with a trigger of 1 so that a later commit at a LOWER timestamp lands in a level above the newer version); after every transition reads at every timestamp >= the discard timestamp equal the reference model and Item.Version equals the caller's timestamp. Write batches mixing explicit versions with the batch timestamp (every sequence of up to 3 / 5 operations), followed by a later commit: reads at every timestamp agree with the model on the live database and on a crash image re-opened in managed mode (the chosen timestamps survive WAL replay).",
 		stateRule,
-		[]Stage{bfs("lsm", 5, 60, prm("oracle", "c36", "keys", 1, "managed_ts", true)), en("c36crash", 16, 40, prm("len", 3))},
-		[]Stage{bfs("lsm", 6, 600, prm("oracle", "c36", "keys", 1, "managed_ts", true)), en("c36crash", 16, 600, prm("len", 5))})
+		[]Stage{bfs("lsm", 5, 60, prm("oracle", "c36", "keys", 1, "managed_ts", true)), bfs("lsm", 5, 60, prm("oracle", "c36", "keys", 1, "managed_ts", true, "l0_tables", 1)), en("c36crash", 16, 40, prm("len", 3))},
+		[]Stage{bfs("lsm", 6, 600, prm("oracle", "c36", "keys", 1, "managed_ts", true)), bfs("lsm", 6, 600, prm("oracle", "c36", "keys", 1, "managed_ts", true, "l0_tables", 1)), en("c36crash", 16, 600, prm("len", 5))})
 
 	enumPlan := func(level, text, note, rule string, quick, thorough []Stage) func(q bool) *Plan {
 		return func(q bool) *Plan {
